@@ -191,7 +191,8 @@ def build(seq, variant, hole_scope, hole_kind):
         own = "2024-07-%02d" % (10 + n) if (variant == "date" and n % 3 == 2) else None
         it = Line("item", deco("n%d" % n, None), text="note%d" % n, zid=zid, own_date=own)
         if variant == "date":
-            it.deco = Deco(tags=[("areas", "n%da" % n)])
+            # every other note is a bare one-word note (exactly one id token), the rest carry one tag
+            it.deco = Deco(tags=[("areas", "n%da" % n)]) if n % 2 else Deco()
         n += 1
         scopes.append(it)
         return it
